@@ -11,35 +11,39 @@ from .core import Abort, Hang, Precondition, Violation, World, call, exc_class
 # roots: list of (directed, removal) the focus may draw; armed: per-step state oracles;
 # faults: enabled fault kinds; hist: history checks at the end of a run
 FOCUS = {
-    'C01': dict(roots=[(0, 1), (1, 1)], armed=['c01'], faults=['F-ORD', 'F-NOT', 'F-BULK'], hist=['sched']),
+    'C01': dict(roots=[(0, 1), (1, 1)], armed=['c01'], faults=['F-ORD', 'F-NOT', 'F-BULK'], hist=['sched'],
+                all_reps=True, derive=['slice', 'convert'], p_derive=[0.0, 0.0, 0.1]),
     'C02': dict(roots=[(0, 1), (1, 1), (0, 1), (1, 1), (0, 0), (1, 0)], armed=['c02'], faults=['F-ORD', 'F-BULK'],
                 hist=['c02-final'], derive=['slice', 'convert'], p_derive=[0.0, 0.1], p_node=[0.1, 0.2],
                 steps_cap=16),
-    'C03': dict(roots=[(0, 1), (1, 1)], armed=['c03'], faults=['F-ORD'], hist=[]),
-    'C04': dict(roots=[(0, 1), (1, 1)], armed=['c04'], faults=['F-ORD', 'F-BULK'], hist=['sched']),
-    'C05': dict(roots=[(0, 1), (1, 1)], armed=['c05'], faults=['F-ORD'], hist=['sched']),
+    'C03': dict(roots=[(0, 1), (1, 1)], armed=['c03'], faults=['F-ORD'], hist=[], p_derive=[0.0, 0.1, 0.2], all_reps=True,
+                derive=['slice', 'convert', 'restart:snapshots', 'restart:interactions', 'restart:json']),
+    'C04': dict(roots=[(0, 1), (1, 1)], armed=['c04'], faults=['F-ORD', 'F-BULK'], hist=['sched'],
+                all_reps=True, derive=['slice', 'convert'], p_derive=[0.0, 0.0, 0.1]),
+    'C05': dict(roots=[(0, 1), (1, 1)], armed=['c05'], faults=['F-ORD'], hist=['sched'],
+                all_reps=True, derive=['slice', 'convert'], p_derive=[0.0, 0.0, 0.1]),
     'C06': dict(roots=[(0, 1), (1, 1)], armed=['c03', 'c04', 'c05', 'attrs'], scope='derived', faults=['F-ORD'],
                 hist=[], derive=['slice'], p_derive=[0.15, 0.3], p_node=[0.1, 0.2]),
-    'C09': dict(roots=[(0, 1), (1, 1)], armed=['c03', 'c04', 'c05'], scope='derived', faults=['F-ORD'], hist=[],
+    'C09': dict(roots=[(0, 1), (1, 1)], armed=[], faults=['F-ORD'], hist=[],
                 derive=['restart:snapshots', 'parse:snapshots'], p_derive=[0.2, 0.35], level='fault_enumeration',
                 io_faults=True, variants=True, steps_cap=20),
-    'C10': dict(roots=[(0, 1), (1, 1)], armed=['c03', 'c04', 'c05'], scope='derived', faults=['F-ORD'], hist=[],
+    'C10': dict(roots=[(0, 1), (1, 1)], armed=[], faults=['F-ORD'], hist=[],
                 derive=['restart:interactions', 'parse:interactions'], p_derive=[0.2, 0.35], level='fault_enumeration',
                 io_faults=True, variants=True, steps_cap=20),
-    'C11': dict(roots=[(0, 1), (1, 1)], armed=['c03', 'c04', 'c05', 'attrs'], scope='derived', faults=['F-ORD'], hist=[],
+    'C11': dict(roots=[(0, 1), (1, 1)], armed=['attrs'], faults=['F-ORD'], hist=[],
                 derive=['restart:json'], p_derive=[0.2, 0.35], p_node=[0.15, 0.3], steps_cap=20),
-    'C18': dict(roots=[(0, 1), (1, 1)], armed=['c03', 'c05'], scope='derived', faults=['F-ORD'], hist=[],
+    'C18': dict(roots=[(0, 1), (1, 1)], armed=[], faults=['F-ORD'], hist=[],
                 derive=['parse', 'parse', 'parse', 'compact'], p_derive=[0.5, 0.7], level='fault_enumeration',
                 variants=True, steps_cap=12),
     'C12': dict(roots=[(0, 1), (1, 1)], armed=[], faults=['F-ORD'], hist=[], small=True,
-                derive=['probe_paths', 'probe_paths', 'probe_all', 'slice'], p_derive=[0.3, 0.5]),
+                derive=['probe_paths', 'probe_paths', 'probe_paths', 'probe_all', 'slice', 'nx:clear'], p_derive=[0.3, 0.5]),
     'C13': dict(roots=[(0, 1), (1, 1)], armed=[], faults=['F-ORD'], hist=[], small=True,
-                derive=['probe_paths', 'probe_paths', 'probe_all', 'slice'], p_derive=[0.3, 0.5]),
+                derive=['probe_paths', 'probe_paths', 'probe_paths', 'probe_all', 'slice', 'nx:clear'], p_derive=[0.3, 0.5]),
     'C15': dict(roots=[(0, 1), (1, 1)], armed=[], faults=['F-ORD'], hist=[], small=True,
-                derive=['probe_dag', 'probe_dag', 'probe_dag', 'slice'], p_derive=[0.3, 0.5]),
+                derive=['probe_dag', 'probe_dag', 'probe_dag', 'probe_dag', 'slice', 'nx:clear'], p_derive=[0.3, 0.5]),
     'C17': dict(roots=[(0, 1), (0, 1), (1, 1)], armed=[], faults=['F-ORD'], hist=[], selfloops=[0.0, 0.0, 0.05],
                 derive=['probe_stats', 'probe_stats', 'probe_stats', 'slice', 'restart:snapshots'], p_derive=[0.3, 0.5]),
-    'C19': dict(roots=[(0, 1), (1, 1), (0, 1), (1, 1), (0, 0), (1, 0)], armed=['c03', 'c04', 'c05'], faults=['F-ORD', 'F-BULK'],
+    'C19': dict(roots=[(0, 1), (1, 1), (0, 1), (1, 1), (0, 0), (1, 0)], armed=[], faults=['F-ORD', 'F-BULK'],
                 hist=['shadow'], derive=['nx:blocked', 'nx:blocked', 'nx:any', 'nx:any', 'nx:frozen', 'freeze'],
                 p_derive=[0.3, 0.5], p_node=[0.1, 0.2], level='fault_enumeration', steps_cap=24),
     'C20': dict(roots=[(0, 1)], armed=[], faults=['F-ORD'], hist=[], small=True, selfloops=[0.0],
@@ -112,7 +116,7 @@ def _alarm(signum, frame):
 def op_window(world, rep, op):
     ext = [op.get('t'), op.get('e'), op.get('t_from'), op.get('t_to')]
     lo, hi = oracles.window(rep.m, [x for x in ext if isinstance(x, int)])
-    if hi - lo > 300:
+    if hi - lo > (1500 if world.big else 300):
         raise Abort('instant window too wide for a sweep (%d): operation aimed at a replica of another origin' % (hi - lo))
     return lo, hi
 
@@ -134,47 +138,66 @@ def execute(world, op):
     rep = world.rep_by_id(op.get('g', 0))
     if rep is None:
         return {'out': 'skipped', 'fault': False, 'cls': 'skip', 'keys': []}
+    return execute_owned(world, rep, op, kind)
+
+
+OWNER = {'slice': ('C06',), 'slice2': ('C06',), 'convert': ('C16',), 'mutate_attr': ('C16', 'C06', 'C11'),
+         'restart:snapshots': ('C09',), 'restart:interactions': ('C10',), 'restart:json': ('C11',),
+         'parse:snapshots': ('C09', 'C18'), 'parse:interactions': ('C10', 'C18'), 'compact': ('C18',),
+         'probe_paths': ('C12', 'C13'), 'probe_all': ('C12', 'C13'), 'probe_dag': ('C15',), 'probe_stats': ('C17',),
+         'probe_conf': ('C20',), 'nx': ('C19',), 'freeze': ('C19',)}
+
+
+def execute_owned(world, rep, op, kind):
     c07 = (not world.quiet) and 'c07' in world.armed and kind in ('add', 'bulk')
     if c07:
         lo, hi = op_window(world, rep, op)
         pre_obs = obs.full(rep.g, lo, hi)
         pre_copy = copy.deepcopy(rep.g)
-    if kind == 'add':
-        out = ops.do_add(world, rep, op)
-    elif kind == 'bulk':
-        out = ops.do_bulk(world, rep, op)
-    elif kind == 'node':
-        out = ops.do_node(world, rep, op)
-    elif kind == 'slice':
-        out = ops.do_slice(world, rep, op)
-    elif kind == 'slice2':
-        out = ops.do_slice2(world, rep, op)
-    elif kind == 'convert':
-        out = ops.do_convert(world, rep, op)
-    elif kind == 'mutate_attr':
-        out = ops.do_mutate_attr(world, rep, op)
-    elif kind == 'probe_paths':
-        out = ops_paths.do_probe_paths(world, rep, op)
-    elif kind == 'probe_all':
-        out = ops_paths.do_probe_all_paths(world, rep, op)
-    elif kind == 'probe_dag':
-        out = ops_paths.do_probe_dag(world, rep, op)
-    elif kind == 'probe_stats':
-        out = ops_stats.do_probe_stats(world, rep, op)
-    elif kind == 'probe_conf':
-        out = ops_conf.do_probe_conf(world, rep, op)
-    elif kind == 'nx':
-        out = ops_nx.do_nx(world, rep, op)
-    elif kind == 'freeze':
-        out = ops_nx.do_freeze(world, rep, op)
-    elif kind == 'restart':
-        out = ops_io.do_restart(world, rep, op)
-    elif kind == 'parse':
-        out = ops_io.do_parse(world, rep, op)
-    elif kind == 'compact':
-        out = ops_io.do_compact(world, rep, op)
-    else:
-        raise ValueError(kind)
+    owner = OWNER.get(kind) or OWNER.get(kind + ':' + str(op.get('via') or op.get('fmt')))
+    try:
+        if kind == 'add':
+            out = ops.do_add(world, rep, op)
+        elif kind == 'bulk':
+            out = ops.do_bulk(world, rep, op)
+        elif kind == 'node':
+            out = ops.do_node(world, rep, op)
+        elif kind == 'slice':
+            out = ops.do_slice(world, rep, op)
+        elif kind == 'slice2':
+            out = ops.do_slice2(world, rep, op)
+        elif kind == 'convert':
+            out = ops.do_convert(world, rep, op)
+        elif kind == 'mutate_attr':
+            out = ops.do_mutate_attr(world, rep, op)
+        elif kind == 'probe_paths':
+            out = ops_paths.do_probe_paths(world, rep, op)
+        elif kind == 'probe_all':
+            out = ops_paths.do_probe_all_paths(world, rep, op)
+        elif kind == 'probe_dag':
+            out = ops_paths.do_probe_dag(world, rep, op)
+        elif kind == 'probe_stats':
+            out = ops_stats.do_probe_stats(world, rep, op)
+        elif kind == 'probe_conf':
+            out = ops_conf.do_probe_conf(world, rep, op)
+        elif kind == 'nx':
+            out = ops_nx.do_nx(world, rep, op)
+        elif kind == 'freeze':
+            out = ops_nx.do_freeze(world, rep, op)
+        elif kind == 'restart':
+            out = ops_io.do_restart(world, rep, op)
+        elif kind == 'parse':
+            out = ops_io.do_parse(world, rep, op)
+        elif kind == 'compact':
+            out = ops_io.do_compact(world, rep, op)
+        else:
+            raise ValueError(kind)
+    except Violation as v:
+        if owner and world.focus not in owner and not world.quiet:
+            # the operation's own oracles belong to another property: the run is discarded (that
+            # property's check reports the defect), never filed under this focus
+            raise Precondition('%s/%s failed in a run focused on %s' % (v.oracle, v.sub, world.focus))
+        raise
     if out['out'] == 'skipped':
         return out
     if not world.quiet:
@@ -232,27 +255,44 @@ def check_c07(world, rep, op, out, pre_obs, pre_copy, lo, hi):
 
 
 def step_checks(world, rep, op, out):
-    """armed per-step oracles on the touched replica"""
+    """armed per-step oracles: on the touched replica, and in the focuses that quantify over
+    histories of one graph in the presence of other live objects (C01 C03 C04 C05) on every
+    replica of the world - an operation on one graph must not move another"""
+    spec = FOCUS[world.focus]
+    if spec.get('all_reps') and len(world.reps) > 1:
+        for r in world.reps:
+            check_replica(world, r, op if r is rep else {'op': 'untouched', 'after': op})
+    else:
+        check_replica(world, rep, op)
+
+
+def check_replica(world, rep, op):
     m = rep.m
     lo, hi = op_window(world, rep, op)
     armed = world.armed
-    # C01 agreement is the base of every other oracle: violation under C01, precondition elsewhere
+    focus = world.focus
+    # C01 agreement is the base of every other oracle: violation under C01/C08, precondition elsewhere
     bad = oracles.presence_mismatch(rep, lo, hi)
     if bad:
         if 'c01' in armed or 'c08' in armed:
             raise Violation('C01.presence', bad[0], {'query': bad[1], 'got': bad[2], 'after': op})
-        if world.focus == 'C03' and FOCUS['C03'].get('scope') is None:
-            world.diverged = True          # judged on the model-free clauses from here on
-            world.count('c03.intrinsic-only')
+        if focus in ('C03', 'C05') and FOCUS[focus].get('scope') is None:
+            rep.diverged = True            # judged on the model-free / relational clauses from here on
+            world.count(focus.lower() + '.relational-only')
         else:
             raise Precondition('C01.presence %r' % (bad,))
     if getattr(world, 'diverged', False):
-        world.evals += oracles.c03_intrinsic(rep, lo, hi)
+        rep.diverged = True
+    if getattr(rep, 'diverged', False):
+        if focus == 'C03':
+            world.evals += oracles.c03_intrinsic(rep, lo, hi)
+        elif focus == 'C05' and m.removal:
+            world.evals += oracles.c05(rep, oracles.observed_presence(rep, lo, hi))
         return
     if 'c01' in armed:
         world.evals += getattr(rep, '_n', 1)
     nonempty = bool(m.keys())
-    if FOCUS[world.focus].get('scope') == 'derived' and not rep.derived:
+    if FOCUS[focus].get('scope') == 'derived' and not rep.derived:
         return
     if 'c03' in armed and m.removal:
         world.evals += oracles.c03(rep)
@@ -284,6 +324,13 @@ def gen_step(world, rng, cfg):
     if x < cfg['p_fault']:
         fault = rng.choice(spec['faults'])
     op = None
+    if cfg.get('big') and not world.big_done and rep.m.removal and len(world.reps) <= 2:
+        # one very long span (more rows than any internal block or buffer size) early in the run
+        world.big_done = True
+        u, v = gen.pick_pair(rng, rep.m, cfg)
+        ids = rep.m.instants()
+        a = (ids[-1] + 2) if ids else cfg['origin']
+        return {'op': 'add', 'g': rep_i, 'u': u, 'v': v, 't': a, 'e': a + rng.randint(515, 700), 'sp': 'pos'}
     derive = spec.get('derive')
     if derive and rng.random() < cfg.get('p_derive', 0) and (rep.m.removal or world.focus == 'C19') and (rep.m.keys() or rng.random() < 0.1):
         d = rng.choice(derive)
@@ -302,7 +349,12 @@ def gen_step(world, rng, cfg):
             mode = d.split(':')[1]
             if mode == 'frozen' and not rep.m.frozen:
                 mode = 'blocked'
-            op = ops_nx.gen_nx(rng, rep, cfg, mode)
+            if mode == 'clear':
+                # wipe the graph in the middle of a history (stale caches / indexes surface afterwards)
+                op = {'op': 'nx', 'mode': 'any', 'name': rng.choice(['clear', 'clear_edges']), 'args': [], 'kwargs': {}} \
+                    if rng.random() < 0.5 and rep.m.keys() else None
+            else:
+                op = ops_nx.gen_nx(rng, rep, cfg, mode)
         elif d.startswith('probe_'):
             op = gen.gen_probe(rng, rep, cfg, d)
         elif d.startswith('parse'):
@@ -512,6 +564,11 @@ def run(focus, seed=None, ops_list=None, profile=None, keep_log=False):
                 cfg['p_selfloop'] = rng.choice([0.0, 0.0, 0.05])
             if 'selfloops' in FOCUS[focus]:
                 cfg['p_selfloop'] = rng.choice(FOCUS[focus]['selfloops'])
+            if FOCUS[focus].get('io_faults') and rng.random() < 0.04:
+                cfg['big'] = True
+                world.big = True
+                cfg['steps'] = min(cfg['steps'], 8)
+                cfg['p_derive'] = 0.5
             if 'steps_cap' in FOCUS[focus]:
                 cfg['steps'] = min(cfg['steps'], FOCUS[focus]['steps_cap'])
             for knob in ('p_fault', 'p_derive', 'p_node'):
@@ -533,6 +590,8 @@ def run(focus, seed=None, ops_list=None, profile=None, keep_log=False):
                 executed.append(op)
                 outs.append(execute(world, op))
         else:
+            world.big = any(isinstance(o.get('e'), int) and isinstance(o.get('t'), int) and o['e'] - o['t'] > 200
+                            for o in ops_list)
             for op in ops_list:
                 executed.append(op)
                 outs.append(execute(world, op))
